@@ -51,12 +51,14 @@ require (
 	golang.org/x/sync v0.11.0 // indirect
 	golang.org/x/sys v0.31.0 // indirect
 	golang.org/x/text v0.22.0 // indirect
-	golang.org/x/tools v0.30.0 // indirect
 	golang.org/x/xerrors v0.0.0-20240903120638-7835f813f4da // indirect
 	google.golang.org/genproto/googleapis/rpc v0.0.0-20250115164207-1a7da9e5054f // indirect
 	gopkg.in/yaml.v3 v3.0.1 // indirect
 )
 
-require github.com/open-telemetry/otel-arrow v0.0.0
+require (
+	github.com/open-telemetry/otel-arrow v0.0.0
+	golang.org/x/tools v0.30.0
+)
 
 replace github.com/open-telemetry/otel-arrow => /repo
